@@ -3,6 +3,7 @@ from __future__ import annotations
 
 import ast
 
+from ..core import AnalysisError
 from ..grouping import GroupFacts
 from . import grouprules as gr
 from . import nameres
@@ -36,6 +37,9 @@ def run(ctx) -> None:
     a, w = st["a"], st["w"]
 
     def part():
+        if w.partition_error:
+            _partition_sibling_fallback(ctx, a, w.partition_error)
+            raise AnalysisError(w.partition_error)
         probs = w.partition_problems()
         ctx.ob("a.partition", w.f, "partition", not probs, "rows partitioned in row order; row_keys[i] is row i's group key",
                probs[0][1] if probs else w.part_loop, message="window: " + "; ".join(p for p, _ in probs))
